@@ -129,6 +129,19 @@ def audit(pid):
     return p.returncode == 0, res, out
 
 
+def enclosing_decl(path, line):
+    """the theorem / definition a line of a Lean source belongs to, as `name (file)`"""
+    try:
+        lines = open(path, encoding="utf-8").read().split("\n")
+    except OSError:
+        return None
+    for i in range(min(line, len(lines)) - 1, -1, -1):
+        m = re.match(r"\s*(?:private\s+|protected\s+|noncomputable\s+)*(theorem|lemma|def|example|instance)\s+([^\s:(\[{]+)?", lines[i])
+        if m:
+            return "%s %s (%s)" % (m.group(1), m.group(2) or "", os.path.relpath(path, LEAN))
+    return None
+
+
 def declared_theorems(pid):
     """theorem names declared in CmProps/<pid>.lean (textually), so that a theorem that no longer
     builds is still counted as an obligation."""
@@ -163,7 +176,12 @@ def proof_status(pid, regenerate=None):
         st["obligations"] = max(1, len(declared))
         st["discharged"] = 0
         errs = re.findall(r"error: ([^\n]*)", out)
-        st["broken"] = ["CmProps.%s does not build: %s" % (pid, "; ".join(errs[:3]))]
+        names = []
+        for m in re.finditer(r"error: ((?:Cm\w+)/[\w/]+\.lean):(\d+):\d+", out):
+            d = enclosing_decl(os.path.join(LEAN, m.group(1)), int(m.group(2)))
+            if d and d not in names:
+                names.append(d)
+        st["broken"] = ["CmProps.%s does not build%s: %s" % (pid, (" - no longer proved: " + ", ".join(names[:8])) if names else "", "; ".join(errs[:3]))]
     else:
         aok, thms, aout = audit(pid)
         if not aok or not thms:
